@@ -83,7 +83,10 @@ def priority_rule(run, stats, bad):
         # (an arrival whose delivering event was already in the agenda when the decision was enabled precedes the
         # scheduler's own resumption, which is triggered later: events of one instant take effect in trigger order)
         E = max(prev_dep, oldest)
-        certain = [x for x in higher if x[3] <= E or x[4] < E]
+        # -- only when the decision follows a departure: after an idle period SP may be consuming a stale wake-up token,
+        # i.e. already be on its way to the scan when the first packet arrives)
+        busy = prev_dep >= oldest
+        certain = [x for x in higher if x[3] <= E or (busy and x[4] < E)]
         if higher and not certain:
             stats["higher_arrived_between_pick_and_start"] += 1
         if certain:
